@@ -242,7 +242,10 @@ class CFG:
     def _try(self, st: ast.Try, ins: list[tuple[int, str]]) -> list[tuple[int, str]]:
         has_finally = bool(st.finalbody)
         if has_finally:
-            self._frames.append(("finally", st.finalbody))
+            # entry of the copy of the finally body that runs when a statement of the try (or of a handler) raises
+            # implicitly; after it the exception continues outwards
+            fin_entry = self._new("join", None, "finally-exc")
+            self._frames.append(("finally", st.finalbody, fin_entry.id))
         hnodes = [self._new("except", h) for h in st.handlers]
         catch_all = any(handler_is_catch_all(h) for h in st.handlers)
         if hnodes:
@@ -257,10 +260,20 @@ class CFG:
             self._frames.pop()
             if outs:
                 outs = self._block(st.finalbody, outs)
+            if self.pred[fin_entry.id]:
+                fouts = self._block(st.finalbody, [(fin_entry.id, "")])
+                if fouts:
+                    fin_end = self._new("join", None, "finally-exc-end")     # keeps the branch labels of the finally body's exits
+                    self._connect(fouts, fin_end)
+                    self._jump(fin_end.id, "exc")
         return outs
 
     def _implicit_exc(self, n: Node) -> None:
         """Any statement lexically inside a try body may raise into that try's handlers."""
+        if n.kind == "test" and n.ast is not None and all(
+                isinstance(x, (ast.Name, ast.Constant, ast.BoolOp, ast.And, ast.Or, ast.UnaryOp, ast.Not, ast.Load, ast.Compare, ast.Is,
+                               ast.IsNot)) for x in ast.walk(n.ast)):
+            return      # a test of plain names / constants / identity comparisons cannot raise
         for fr in reversed(self._frames):
             if fr[0] == "except":
                 for h in fr[1]:
@@ -268,9 +281,9 @@ class CFG:
                 if fr[2]:
                     return
             elif fr[0] == "finally":
-                # implicit exceptions through finally are not expanded (would double every finally
-                # body for every statement); explicit raise/return are.
-                continue
+                # one shared exceptional copy of the finally body per try statement (built in _try)
+                self._edge(n.id, fr[2], "exc")
+                return
         # not caught: leaves the function (no edge added for implicit exceptions outside try)
 
     def _jump(self, src: int, kind: str) -> None:
